@@ -25,11 +25,11 @@ func rulesC16(c *Ctx, r *Report) {
 		e.rulePure(r, "PURE", at, "idx")
 		rulesAtSearch(c, r, at)
 	}
-	if cp := c.fn("regions", "cp"); cp != nil {
+	if cp := c.role("regions.cp"); cp != nil {
 		e.ruleFresh(r, "FRESH", cp)
 	}
 	rulesRoIndex(c, r)
-	rulesMapOrderFn(c, r, "regions", "keys")
+	rulesMapOrderFn(c, r, c.role("regions.keys"), "regions active-set keys")
 	rulesSortCmp(c, r)
 	rulesGrdPkg(c, r, []string{"regions"}, 10)
 }
@@ -211,7 +211,7 @@ func rulesSortCmp(c *Ctx, r *Report) {
 	}
 	r.check(len(arith) == 0, "SORT-CMP", "regions.NewIndex", "comparator uses comparisons only", c.pos(f.Pos()), "the event order ("+sortName+") is decided by <, != on coordinates only: no arithmetic that could overflow for extreme coordinates", "the event comparator does integer arithmetic on coordinates ("+strings.Join(arith, "; ")+"): for coordinates more than MaxInt apart the difference wraps and events are swept out of order")
 	// eventLess: pos first, then end-before-start
-	el := c.fn("regions", "eventLess")
+	el := c.role("regions.eventLess")
 	if el == nil {
 		r.undecided("SORT-CMP", "regions.eventLess", "anchor", "", "eventLess not found")
 		return
@@ -261,7 +261,7 @@ func rulesAtSearch(c *Ctx, r *Report, at *ssa.Function) {
 				e := sg.expr(rt.Results[0]).String()
 				predSeen = e
 				// idx.idx[j].start > i   (normalised: i < start)
-				if strings.HasPrefix(e, "(load(FV:i) < load(load(load(FV:idx).f0)[P0].f0))") || e == "(load(FV:i) < load(load(load(FV:idx).f0)[P0].f0))" {
+				if e == "(^P1 < load(load(^P0.f0)[P0].f0))" {
 					okPred = true
 				}
 			}
